@@ -54,7 +54,22 @@ def readStripPred : Char → Bool :=
   | ("rstrip", none) => fun c => c.isWhitespace
   | _ => fun _ => false
 
-def readLines (s : List Char) : List (List Char) := (readLinesRaw s []).map (rstripBy readStripPred)
+/-- the characters `str.splitlines()` treats as line boundaries (besides `\r\n`): \n \r \x0b \x0c \x1c \x1d \x1e \x85 U+2028 U+2029 -/
+def isUnicodeLineBreak (c : Char) : Bool :=
+  c = '\n' || c = '\r' || c.toNat = 0x0b || c.toNat = 0x0c || c.toNat = 0x1c || c.toNat = 0x1d || c.toNat = 0x1e ||
+  c.toNat = 0x85 || c.toNat = 0x2028 || c.toNat = 0x2029
+
+/-- `str.splitlines()` / `str.split('\n')`-style cutting: boundaries are dropped; `keepLast` says whether a final empty piece is kept
+    (`split` keeps it, `splitlines` does not) -/
+def splitOnBreaks (isBreak : Char → Bool) (keepLast : Bool) : List Char → List Char → List (List Char)
+  | [], acc => if acc.isEmpty && !keepLast then [] else [acc.reverse]
+  | c :: cs, acc => if isBreak c then acc.reverse :: splitOnBreaks isBreak keepLast cs [] else splitOnBreaks isBreak keepLast cs (c :: acc)
+
+/-- `read_text_file`: the way the content is cut into lines is regenerated from the source (`readTextSplitter`), so is the strip -/
+def readLines (s : List Char) : List (List Char) :=
+  if readTextSplitter = "readline" then (readLinesRaw s []).map (rstripBy readStripPred)
+  else if readTextSplitter = "splitlines" then (splitOnBreaks isUnicodeLineBreak false s []).map (rstripBy readStripPred)
+  else (splitOnBreaks (fun c => c = '\n') true s []).map (rstripBy readStripPred)
 
 /-! ### a ten-line file system for `copy_file` -/
 
